@@ -24,6 +24,10 @@ def same_as_ref(r, real, eng=None, oob_prefix=False):
         return real['cls'] == 'exit' and real['rc'] == 1 and real['out'] == r['out']
     if r['cls'] == 'fault-oob':
         if eng == 'native':
+            if real['cls'] == 'compile-failed' and r['out'] == b'' and 'out of bounds' in real.get('err', ''):
+                # the out-of-range access sits in a top-level constant: nanoc evaluates those while compiling and stops there with
+                # the same diagnostic -- no output, non-zero status, before main: the same observable outcome as the run-time stop
+                return True
             if real['cls'] != 'signal6':
                 return False
             return real['out'] == r['out'] or (oob_prefix and r['out'].startswith(real['out']))
@@ -42,6 +46,8 @@ def same_model(m, real):
     if m['cls'] == 'signal-fpe':
         return real['cls'] == 'signal8'
     if m['cls'] == 'abort-oob':
+        if real['cls'] == 'compile-failed' and not m.get('out') and 'out of bounds' in real.get('err', ''):
+            return True                          # the access is in a top-level constant: nanoc stops with the same diagnostic while compiling
         return real['cls'] == 'signal6'          # like SIGFPE: what of the buffered stdout survives abort() is libc's business
     if m['cls'] == 'ccfail':
         return real['cls'] == 'cc-failed'
